@@ -1864,7 +1864,7 @@ def eval_enqueue(ctx):
 
 
 # --------------------------------------------------------------------------- find_workflow on a symbolic directory tree
-def eval_find_workflow(ctx, spec, cwd, existing, links=None, env=None, more_args=(), more_kwargs=None):
+def eval_find_workflow(ctx, spec, cwd, existing, links=None, env=None, more_args=(), more_kwargs=None, _session=None, _then=None):
     """utils.find_workflow(spec) with the invoking directory `cwd` and the set of existing files; returns (path, obj) / 'raise <kind>' / '<unsupported>'."""
     import posixpath
     fw = ctx.index.func("gwf.utils:find_workflow")
@@ -1927,6 +1927,14 @@ def eval_find_workflow(ctx, spec, cwd, existing, links=None, env=None, more_args
                   "os.environ.__getitem__": lambda k_: env[k_], "os.environ.__contains__": lambda k_: k_ in env})
     interp = PureInterp(ctx, hooks=hooks)
     interp.max_loop = 64
+    if _then is not None:
+        # a second search in the same process from another directory (a notebook, a driver script, a test runner that calls gwf twice): first this one ...
+        try:
+            interp.call(fw, (spec,) + tuple(more_args), dict(more_kwargs or {}))
+        except (Raised, Unsupported):
+            pass
+        cwd = _then       # ... then the directory changes (the hooks read `cwd` when they are called)
+        env["PWD"] = _then
     try:
         res = interp.call(fw, (spec,) + tuple(more_args), dict(more_kwargs or {}))
     except Raised as exc:
@@ -1968,6 +1976,7 @@ def find_workflow_witness(ctx):
         ("$PWD names another project than the directory gwf runs in", "workflow.py:gwf", "/a/b", {"/a/workflow.py", "/other/proj/workflow.py"}, ("/a/workflow.py", "gwf"), None,
          {"PWD": "/other/proj", "HOME": "/home/u"}),
         ("$PWD is not set", "workflow.py:gwf", "/a/b", {"/a/workflow.py"}, ("/a/workflow.py", "gwf"), None, {}),
+        ("the same process searched from /p1/sub a moment ago and now runs in /p2", "workflow.py:gwf", "/p1/sub", {"/p1/workflow.py", "/p2/workflow.py"}, ("/p2/workflow.py", "gwf"), None, None, "/p2"),
     ]
     diffs, n = [], 0
     import posixpath as _pp
@@ -1983,7 +1992,10 @@ def find_workflow_witness(ctx):
         label, spec, cwd, existing, want = row[:5]
         links = row[5] if len(row) > 5 else None
         env = row[6] if len(row) > 6 else None
-        got, looked = eval_find_workflow(ctx, spec, cwd, existing, links, env, more_a, more_k)
+        then_ = row[7] if len(row) > 7 else None
+        got, looked = eval_find_workflow(ctx, spec, cwd, existing, links, env, more_a, more_k, _then=then_)
+        if then_ is not None:
+            cwd = then_
         if isinstance(got, tuple) and isinstance(got[0], str):
             got = (_pp.normpath(got[0] if got[0].startswith("/") else _pp.join(cwd, got[0])), got[1])      # '..' collapsed or not, relative to the invoking directory or absolute: the same location
         if isinstance(got, str) and got.startswith("<unsupported") and "loop bound" in got:
